@@ -21,6 +21,8 @@ const pkgPGHandler = "pkg/podgrouper/podgroup"
 const pkgGrouperPlugins = "pkg/podgrouper/podgrouper/plugins"
 
 func runC18(c *Ctx) {
+	runC18NamespacedLists(c)
+	runC18LwsLeaderReady(c)
 	runC18OwnerIdentity(c)
 	runC18Wiring(c)
 	runC18LookupErrors(c)
@@ -530,4 +532,78 @@ func runC18RayHead(c *Ctx) {
 			"the Ray grouper can succeed with NO sub-groups (head-only cluster): the stored PodGroup then has none, shouldUseSubGroups treats the workload as legacy for ever, and the same cluster gets different sub-groups depending on whether it was first reconciled before or after its workers were added")
 	}
 	c.Floor("O9", "RET successful returns of the Ray sub-group computation", n, 2)
+}
+
+// runC18NamespacedLists (O10): a PodGroup may depend only on its own workload. Where a grouper looks at other pods of
+// the workload (is the launcher there yet, the pods of a revision) it lists them by label — and labels are only
+// unique within a namespace. A List without client.InNamespace matches the pods of a same-named workload of another
+// tenant, and the computed PodGroup changes with what other namespaces contain.
+func runC18NamespacedLists(c *Ctx) {
+	n := 0
+	for _, fn := range c.P.FuncsIn("pkg/podgrouper") {
+		if isTestdataOrMock(fn) {
+			continue
+		}
+		for _, in := range instrsIn(fn, isInvokeNamed("List")) {
+			args := in.(ssa.CallInstruction).Common().Args
+			if len(args) < 3 {
+				continue
+			}
+			listT := args[1].Type()
+			if mi, isMI := args[1].(*ssa.MakeInterface); isMI {
+				listT = mi.X.Type()
+			}
+			if !strings.Contains(typeKey(listT), "k8s.io/api/") {
+				continue
+			}
+			n++
+			ok := false
+			for _, src := range valueSources(args[len(args)-1], 5) {
+				if strings.HasSuffix(typeKey(src.Type()), "client.InNamespace") {
+					ok = true
+				}
+			}
+			c.Check(ok, "O10", "PROV", funcKey(fn)+": pods are listed within the workload's namespace", instrPos(in), "client.InNamespace among the list options",
+				"a grouper lists objects by label without restricting the namespace: a same-named workload of another namespace decides this workload's PodGroup (e.g. minMember counts a launcher that belongs to someone else)")
+		}
+	}
+	c.Floor("O10", "PROV label-selected lists in the groupers", n, 2)
+}
+
+// runC18LwsLeaderReady (O11): for a LeaderReady LeaderWorkerSet the group's minimum is computed from the pod that is
+// being reconciled: "1" while the leader still has to be scheduled (the workers do not exist yet), the group size
+// otherwise. The small answer is only stable because it stops being given once the leader is scheduled — from then on
+// every pod of the group yields the same PodGroup. Given for a scheduled leader it makes the stored PodGroup flip
+// between two values depending on which sibling was reconciled last, each flip a write.
+func runC18LwsLeaderReady(c *Ctx) {
+	f := c.Anchor("O11", "pkg/podgrouper/podgrouper/plugins/leaderworkerset", "", "calcLeaderReadyMinAvailable")
+	if f == nil {
+		return
+	}
+	n := 0
+	for _, b := range f.Blocks {
+		ret, ok := b.Instrs[len(b.Instrs)-1].(*ssa.Return)
+		if !ok {
+			continue
+		}
+		k, isC := ret.Results[0].(*ssa.Const)
+		if !isC {
+			continue
+		}
+		n++
+		unscheduled := func(s FactSet) bool {
+			_, ok := hasFact(s, func(ft Fact) bool {
+				if ft.T.Op != "bin" || len(ft.T.Args) != 2 || !strings.HasSuffix(ft.T.Args[0].String(), ".Spec.NodeName") && !strings.Contains(ft.T.Args[0].String(), ".Spec.NodeName") {
+					return false
+				}
+				// NodeName == "" (or len == 0), with polarity
+				return (ft.T.Name == "==" && ft.Pol) || (ft.T.Name == "!=" && !ft.Pol)
+			})
+			return ok
+		}
+		ok2 := c.Fx.allPathsSatisfy(ret, unscheduled)
+		c.Check(ok2, "O11", "RET", fmt.Sprintf("%s: a minimum below the group size (%s) is answered only for a pod that is not scheduled yet", funcKey(f), k.Value), instrPos(ret), "pod.Spec.NodeName == \"\" on every path",
+			"the LeaderReady minimum "+k.Value.String()+" can be answered for a pod that is already scheduled: leader and workers then compute different PodGroups for the same workload and the stored object is rewritten on every reconcile of either")
+	}
+	c.Floor("O11", "RET constant minimums of calcLeaderReadyMinAvailable", n, 1)
 }
